@@ -11,3 +11,10 @@ pub mod rng;
 pub mod sched;
 pub mod shrink;
 pub mod solve;
+pub mod cli;
+
+/// the repository's binary sources (src/main.rs with its modules auto / gambit / json),
+/// compiled unmodified into the harness through the symlink sim/repo (hook H8 exposes entry points)
+#[allow(dead_code)]
+#[path = "../../repo/src/main.rs"]
+pub mod real_main;
